@@ -404,6 +404,11 @@ func onlyLoaded(instr *ssa.IndexAddr) bool {
 	return true
 }
 
+// nativeFunc is a func value implemented by the engine.
+type nativeFunc struct {
+	fn func(fr *frame, args []value) value
+}
+
 type symElemPtr struct {
 	elems []value
 	idx   *Sym
@@ -442,6 +447,8 @@ func (i *interpreter) call(caller *frame, callpos token.Pos, fn value, args []va
 		return i.callSSA(caller, callpos, fn.Fn, args, fn.Env)
 	case *ssa.Builtin:
 		return i.callBuiltin(caller, fn, args)
+	case *nativeFunc:
+		return fn.fn(caller, args)
 	}
 	panic(fmt.Sprintf("cannot call %T", fn))
 }
